@@ -492,6 +492,9 @@ func Run(bodies []func(), choose Chooser, logOn bool) *Result {
 				if e := recover(); e != nil {
 					t.Panic = e
 				}
+				if s.aborting.Load() && t.ext {
+					return // the run is over: a thread that was blocked in a channel and got released afterwards
+				}
 				t.st = tsDone
 				s.yielded <- t
 			}()
@@ -565,8 +568,8 @@ func Run(bodies []func(), choose Chooser, logOn bool) *Result {
 	// unwind what is still parked
 	s.aborting.Store(true)
 	for _, t := range s.threads {
-		if t.st == tsDone {
-			continue
+		if t.st == tsDone || t.ext {
+			continue // (a thread blocked in a channel operation cannot be unwound from here)
 		}
 		s.mu.Lock()
 		s.cur = t
@@ -593,10 +596,17 @@ func Run(bodies []func(), choose Chooser, logOn bool) *Result {
 // scheduling point (syncExt).  Programs that never block outside vsync never take the slow path.
 func (s *Sched) waitYield(t *Thread) bool {
 	poll := 500 * time.Microsecond
+	if ExtMarks.Load() > 0 {
+		poll = 20 * time.Microsecond // code that blocks in channels: it will happen again, look early
+	}
 	deadline := time.Now().Add(s.Watchdog)
 	quiet := 0
 	for {
-		tm := time.NewTimer(poll)
+		wait := poll
+		if quiet > 0 {
+			wait = time.Microsecond // the confirming snapshot follows at once
+		}
+		tm := time.NewTimer(wait)
 		select {
 		case y := <-s.yielded:
 			tm.Stop()
